@@ -1,5 +1,6 @@
 import Drv.Common
 import VrpModel.C03W
+import VrpModel.C03U
 open Lean Drv C03W
 
 namespace Drv.C03W
@@ -201,8 +202,43 @@ def handleBreaks (impl : Json) : R (List (String × Json)) := do
           ("info", Json.mkObj [("bad", Json.arr bad.reverse.toArray), ("routes", jNat routes.length), ("skipped", jNat skipped),
                                ("break_tours", jNat withBreak), ("transit_tours", jNat transit), ("activities", jNat 4)])]
 
+def parseUJob (j : Json) : R C03U.UJob := do
+  let infoJ ← fld j "info"
+  let info : C03U.UInfo ← match infoJ.getObjVal? "simple", infoJ.getObjVal? "detailed" with
+    | .ok c, _ => do pure (C03U.UInfo.simple (← asInt c).toNat)
+    | _, .ok d => do
+        let l ← listOf (fun x => do
+          let t ← asArr x
+          pure ((← asStr t[0]!), (← asNat t[1]!), (← asInt t[2]!).toNat)) d
+        pure (C03U.UInfo.detailed l)
+    | _, _ => pure C03U.UInfo.unknown
+  pure { jobId := (← optF asStr j "jobId").getD "", vehicleId := ← optF asStr j "vehicleId", shiftIndex := ← optF asNat j "shiftIndex",
+         type := ← optF asStr j "type", info := info }
+
+def jUEntry (e : C03U.UEntry) : Json :=
+  Json.mkObj [("jobId", Json.str e.jobId), ("reasons", jList (fun (r : C03U.UReason) =>
+    Json.mkObj [("code", Json.str r.code), ("description", Json.str r.description),
+                ("details", match r.details with
+                  | some d => jList (fun (x : String × Nat) => Json.arr #[Json.str x.1, jNat x.2]) d
+                  | none => Json.null)]) e.reasons)]
+
+/-- the model of `create_unassigned` / `create_violations` on the dump of the core solution's unassigned list -/
+def unassignedModel (impl : Json) : List (String × Json) :=
+  match (do listF parseUJob impl "unassigned_dump" : R (List C03U.UJob)) with
+  | .ok us =>
+    [("unassigned", jList jUEntry (C03U.createUnassigned us)),
+     ("violations", jList (fun (x : String × Nat) => Json.arr #[Json.str x.1, jNat x.2]) (C03U.createViolations us))]
+  | .error _ => []
+
+def addToModel (extra : List (String × Json)) (res : List (String × Json)) : List (String × Json) :=
+  res.map (fun kv => if kv.1 == "model" then
+      (match kv.2 with
+       | Json.obj _ => ("model", extra.foldl (fun m e => m.setObjVal! e.1 e.2) kv.2)
+       | _ => kv)
+    else kv)
+
 /-- one solved problem: every route of the core solution against the tour the real writer rendered for it -/
-def handle (j : Json) : R (List (String × Json)) := do
+def handleTours (j : Json) : R (List (String × Json)) := do
   let impl ← fld j "impl"
   match impl.getObjVal? "error" with
   | .ok e => return [("model", Json.null), ("oracle", Json.mkObj []), ("info", Json.mkObj [("error", e)])]
@@ -244,6 +280,11 @@ def handle (j : Json) : R (List (String × Json)) := do
           ("oracle", Json.mkObj [("one_tour_per_route", Json.bool true), ("written_tours_meet_the_specification", Json.bool bad.isEmpty)]),
           ("info", Json.mkObj [("bad", Json.arr bad.reverse.toArray), ("routes", jNat routes.length), ("skipped", jNat skipped),
                                ("sched_ok", jNat nSched), ("with_reload", jNat nReload), ("with_break", jNat nBreak), ("activities", jNat nActs)])]
+
+def handle (j : Json) : R (List (String × Json)) := do
+  let res ← handleTours j
+  let impl ← fld j "impl"
+  return addToModel (unassignedModel impl) res
 
 end Drv.C03W
 
